@@ -189,7 +189,8 @@ class Inventory:
                 for e in exprs:
                     for x in walk.expr_walk(e):
                         if isinstance(x, self._sym.TypedSymbol):
-                            ek = 'member-entry' if '%' in name else ('imported-entry' if attrs.__dict__.get('imported') else 'declared-entry')
+                            ek = ('member-entry' if '%' in name else 'imported-entry' if attrs.__dict__.get('imported')
+                                  else 'associate-name-entry' if type(scope).__name__ == 'Associate' else 'declared-entry')
                             self.attr_occurrences.append((x, f'symtab.{k}:{ek}'))
 
     # -- observations
@@ -317,6 +318,22 @@ contains
   end subroutine lv_r
 end module lv_u
 """
+_S_SRC = """
+module lv_s
+  implicit none
+  type lv_st
+    integer :: s
+  end type lv_st
+  type(lv_st) :: lv
+contains
+  subroutine lv_sk(a)
+    integer, intent(inout) :: a
+    associate(lv => lv%s)
+      a = lv
+    end associate
+  end subroutine lv_sk
+end module lv_s
+"""
 _M_SRC = """
 module lv_m
   implicit none
@@ -388,5 +405,14 @@ def known_defects():
         d['unpickle-rescoping-not-identity'] = kinds != kinds2
     except Exception:  # noqa
         d['unpickle-rescoping-not-identity'] = True
+    fsrc = Sourcefile.from_source(_T_SRC + _P_SRC)
+    fc = fsrc.clone()
+    t = dict.get(fc['lv_p'].symbol_attrs, 'lv_h')
+    d['clone-keeps-import-links-into-source'] = t is not None and getattr(t, 'module', None) is fsrc['lv_tm']
+    sm = Sourcefile.from_source(_S_SRC)['lv_s']
+    try:
+        d['selector-of-shadowing-associate-misscoped'] = (pickle.loads(pickle.dumps(sm)) != sm)
+    except Exception:  # noqa
+        d['selector-of-shadowing-associate-misscoped'] = True
     _DEFECTS = d
     return d
